@@ -190,6 +190,21 @@ theorem processData_head {s : St} (h : Wf s) (hq : s.sendQuota ≠ 0) {id : Nat}
     exact ⟨⟨h1, h2⟩, h3, h4, h5⟩
 
 
+theorem usaw_ret_ne (s : St) (id hb : Nat) (pre : List Out) : (updateStreamAfterWrite s id hb pre).ret ≠ .tick true := by
+  unfold updateStreamAfterWrite
+  simp only
+  split
+  · simp
+  · simp only [cleanupStream]
+    split
+    · simp
+    · split <;> simp
+  · split <;> simp
+
+theorem writeChunk_ret_ne (s : St) (id hb off hl d : Nat) (es : Bool) (tl : List Item) (hSize dSize : Nat) :
+    (writeChunk s id hb off hl d es tl hSize dSize).ret ≠ .tick true := by
+  unfold writeChunk; exact usaw_ret_ne _ _ _ _
+
 /-! ### the step predicates -/
 
 theorem step_open {s : St} (hc : s.closed = false) (o : Op) :
